@@ -210,3 +210,61 @@ def closure_func(f):
 def closure_var(f, name):
     """value of the free variable `name` captured by the closure f"""
     raise NotImplementedError('spec primitive')
+
+
+# ---- inspect / functools vocabulary (assumed model: pyvc/engine_inspect.py)
+def sig_of(f):
+    import inspect
+    return inspect.signature(f)
+
+
+def filtered_sig(validator, f, excluded):
+    return validator.signature(f, tuple(excluded))
+
+
+def sig_binds(sig, params):
+    try:
+        sig.bind(*(params if isinstance(params, (list, tuple)) else ()), **(params if isinstance(params, dict) else {}))
+        return True
+    except TypeError:
+        return False
+
+
+def bound_arguments(sig, params):
+    return dict(sig.bind(*(params if isinstance(params, (list, tuple)) else ()),
+                         **(params if isinstance(params, dict) else {})).arguments)
+
+
+def is_param(sig, name):
+    return name in sig.parameters
+
+
+def sig_plain(sig):
+    import inspect
+    return all(p.kind in (inspect.Parameter.POSITIONAL_OR_KEYWORD, inspect.Parameter.KEYWORD_ONLY)
+               for p in sig.parameters.values())
+
+
+def is_partial(p):
+    import functools
+    return isinstance(p, functools.partial)
+
+
+def partial_func(p):
+    return p.func
+
+
+def partial_args(p):
+    return tuple(p.args)
+
+
+def partial_kwargs(p):
+    return dict(p.keywords)
+
+
+def dict_eq(a, b):
+    return dict(a) == dict(b)
+
+
+def dict_eq_except(a, b, k):
+    return {x: v for x, v in a.items() if x != k} == {x: v for x, v in b.items() if x != k}
